@@ -351,3 +351,57 @@ Theorem headmat_relabel_conjugate : forall K pos area Sk Dk (g : igeom R) (pi : 
             = mget RO (headmat RO K pos area Sk Dk g) i j.
 Proof. intros. apply AssemblyRelabel.headmat_relabel_conjugate_lemma; auto. Qed.
 Print Assumptions headmat_relabel_conjugate.
+
+(* old-ordering variants of the remaining loaded-geometry statements *)
+Theorem no_parts_all_rows_sum_zero_for_every_loaded_geometry_old_ordering :
+  forall g hasc zero snz fi sig sinv ind K pos area Sk Dk,
+  GeomModel.finalize g hasc zero snz true = (GeomModel.StOk, Some fi) -> IndexBridgeC10.meshes_well_formed g ->
+  NoDup (flat_map GeomModel.lm_verts (GeomModel.g_meshes g)) ->
+  let G := IndexBridgeC10.to_igeom g fi sig sinv ind in
+  gparts G = [] ->
+  forall rho, In rho (IndexBridgeC10Old.VVold g) ->
+  Rsum (fun u => mget RO (headmat RO K pos area Sk Dk G) (vix G rho) (vix G u)) (IndexBridgeC10Old.VVold g) = 0.
+Proof.
+  intros g hasc zero snz fi sig sinv ind K pos area Sk Dk Hf Hw ND G Hp rho Hr.
+  apply AssemblyProofs.no_parts_all_rows_sum_zero; auto. unfold G. eapply IndexBridgeC10Old.finalize_old_wf_indexed; eauto.
+Qed.
+Print Assumptions no_parts_all_rows_sum_zero_for_every_loaded_geometry_old_ordering.
+
+(* the cavity-wall theorem for every loaded geometry, default and old ordering: only the hypotheses about the wall
+   itself remain (current barrier, never deflated, own vertices, Gauss) *)
+Theorem cavity_wall_indicator_in_kernel_for_every_loaded_geometry :
+  forall g hasc zero snz fi sig sinv ind K pos area Sk Dk,
+  GeomModel.finalize g hasc zero snz false = (GeomModel.StOk, Some fi) -> IndexBridgeC10.meshes_well_formed g ->
+  let G := IndexBridgeC10.to_igeom g fi sig sinv ind in
+  forall w, let W := gmesh G w in
+  mesh_wf W -> incl (mverts W) (IndexBridgeC10.VV g fi) -> mbarrier W = true ->
+  (forall v, In v (mverts W) -> ~ In (vix G v) (outer_idx G)) ->
+  (forall p k, In p (gpairs G) -> (k = pm1 p \/ k = pm2 p) -> k <> w -> forall v, In v (mverts (gmesh G k)) -> ~ In v (mverts W)) ->
+  (forall p k t1, In p (gpairs G) -> (k = pm1 p \/ k = pm2 p) -> k <> w -> In t1 (mtris (gmesh G k)) ->
+     Rsum (fun t2 => Dk (tid t1) (tid t2) 0%nat + Dk (tid t1) (tid t2) 1%nat + Dk (tid t1) (tid t2) 2%nat) (mtris W) = 0) ->
+  forall r, Rsum (fun v => mget RO (headmat RO K pos area Sk Dk G) r (vix G v)) (mverts W) = 0.
+Proof.
+  intros g hasc zero snz fi sig sinv ind K pos area Sk Dk Hf Hw G w W.
+  apply (CavityKernel.cavity_wall_indicator_in_kernel_lemma K pos area Sk Dk G (IndexBridgeC10.VV g fi)).
+  unfold G. eapply IndexBridgeC10.finalize_wf_indexed; eauto.
+Qed.
+Print Assumptions cavity_wall_indicator_in_kernel_for_every_loaded_geometry.
+
+Theorem cavity_wall_indicator_in_kernel_for_every_loaded_geometry_old_ordering :
+  forall g hasc zero snz fi sig sinv ind K pos area Sk Dk,
+  GeomModel.finalize g hasc zero snz true = (GeomModel.StOk, Some fi) -> IndexBridgeC10.meshes_well_formed g ->
+  NoDup (flat_map GeomModel.lm_verts (GeomModel.g_meshes g)) ->
+  let G := IndexBridgeC10.to_igeom g fi sig sinv ind in
+  forall w, let W := gmesh G w in
+  mesh_wf W -> incl (mverts W) (IndexBridgeC10Old.VVold g) -> mbarrier W = true ->
+  (forall v, In v (mverts W) -> ~ In (vix G v) (outer_idx G)) ->
+  (forall p k, In p (gpairs G) -> (k = pm1 p \/ k = pm2 p) -> k <> w -> forall v, In v (mverts (gmesh G k)) -> ~ In v (mverts W)) ->
+  (forall p k t1, In p (gpairs G) -> (k = pm1 p \/ k = pm2 p) -> k <> w -> In t1 (mtris (gmesh G k)) ->
+     Rsum (fun t2 => Dk (tid t1) (tid t2) 0%nat + Dk (tid t1) (tid t2) 1%nat + Dk (tid t1) (tid t2) 2%nat) (mtris W) = 0) ->
+  forall r, Rsum (fun v => mget RO (headmat RO K pos area Sk Dk G) r (vix G v)) (mverts W) = 0.
+Proof.
+  intros g hasc zero snz fi sig sinv ind K pos area Sk Dk Hf Hw ND G w W.
+  apply (CavityKernel.cavity_wall_indicator_in_kernel_lemma K pos area Sk Dk G (IndexBridgeC10Old.VVold g)).
+  unfold G. eapply IndexBridgeC10Old.finalize_old_wf_indexed; eauto.
+Qed.
+Print Assumptions cavity_wall_indicator_in_kernel_for_every_loaded_geometry_old_ordering.
